@@ -871,6 +871,789 @@ theorem nSetText_kinds (st : St) (path : List Nat) (kids : List Spec) :
     · rfl
     · exact kindsOf_setPath _ _ _ c hc (cSetText_kind _ _ _ _ _)
 
+/-! ## trees: allowed kinds and back pointers -/
+
+theorem kidsOK_eq (r : Rule) : r.kidsOK = Rule.kidsOKL r.kind r.kids := by
+  cases r; simp [Rule.kidsOK]
+
+theorem kidsOKL_eq (ck : Kind) (l : List Rule) :
+    Rule.kidsOKL ck l = l.all (fun r => allowedIn ck r.kind && r.kidsOK) := by
+  induction l with
+  | nil => simp [Rule.kidsOKL]
+  | cons r rs ih => simp [Rule.kidsOKL, ih]
+
+theorem linksOK_eq (p : Option Nat) (s : Bool) (r : Rule) :
+    r.linksOK p s = (r.pss == s && r.prule == p && Rule.linksOKL (some r.id) r.kids) := by
+  cases r; simp [Rule.linksOK]
+
+theorem linksOKL_eq (p : Option Nat) (l : List Rule) :
+    Rule.linksOKL p l = l.all (fun r => r.linksOK p false) := by
+  induction l with
+  | nil => simp [Rule.linksOKL]
+  | cons r rs ih => simp [Rule.linksOKL, ih]
+
+/-- every rule of the list has an allowed kind (`A`) and is itself well nested -/
+def allOK (A : Kind → Bool) (l : List Rule) : Bool := l.all (fun r => A r.kind && r.kidsOK)
+
+theorem kidsOKL_allOK (ck : Kind) (l : List Rule) : Rule.kidsOKL ck l = allOK (allowedIn ck) l := kidsOKL_eq ck l
+
+theorem allOK_set {A : Kind → Bool} {l : List Rule} {i : Nat} {c c0 : Rule} (h : allOK A l = true)
+    (h0 : l[i]? = some c0) (hk : c.kind = c0.kind) (hc : c.kidsOK = true) : allOK A (l.set i c) = true := by
+  unfold allOK at *
+  rw [List.all_eq_true] at *
+  intro x hx
+  rcases List.mem_or_eq_of_mem_set hx with hx | hx
+  · exact h x hx
+  · subst hx
+    have := h c0 (List.mem_of_getElem? h0)
+    simp only [Bool.and_eq_true] at this ⊢
+    exact ⟨by rw [hk]; exact this.1, hc⟩
+
+/-- replacing the container at `path` by one of the same kind that is well nested keeps the whole tree well nested -/
+theorem allOK_setPath (A : Kind → Bool) (rules : List Rule) (path : List Nat) (c c0 : Rule)
+    (h : allOK A rules = true) (h0 : atPath rules path = some c0) (hk : c.kind = c0.kind)
+    (hc : c.kidsOK = true) : allOK A (setPath rules c path) = true := by
+  induction path generalizing rules A with
+  | nil => simp [atPath] at h0
+  | cons i rest ih =>
+    cases rest with
+    | nil =>
+      simp only [atPath] at h0
+      simp only [setPath]
+      exact allOK_set h h0 hk hc
+    | cons j p =>
+      simp only [atPath] at h0
+      simp only [setPath]
+      split
+      · exact h
+      · rename_i r hr
+        simp only [hr] at h0
+        have hr' : r.kidsOK = true := by
+          have := (List.all_eq_true.mp h) r (List.mem_of_getElem? hr)
+          simp only [Bool.and_eq_true] at this; exact this.2
+        rw [kidsOK_eq, kidsOKL_allOK] at hr'
+        refine allOK_set (c := { r with kids := setPath r.kids c (j :: p) }) h hr rfl ?_
+        rw [kidsOK_eq, kidsOKL_allOK]
+        exact ih (allowedIn r.kind) r.kids hr' h0
+
+/-! ### fresh objects -/
+
+@[simp] theorem adopt_kidsOK (r : Rule) : r.adopt.kidsOK = r.kidsOK := by
+  rw [kidsOK_eq, kidsOK_eq]; rfl
+@[simp] theorem detach_kidsOK (r : Rule) : r.detach.kidsOK = r.kidsOK := by
+  rw [kidsOK_eq, kidsOK_eq]; rfl
+
+theorem adopt_linksOK {r : Rule} (h : r.linksOK none false = true) : r.adopt.linksOK none true = true := by
+  rw [linksOK_eq] at *
+  simp only [Bool.and_eq_true, beq_iff_eq] at h ⊢
+  exact ⟨⟨rfl, h.1.2⟩, h.2⟩
+
+theorem adopt_linksOK' {r : Rule} (h : r.linksOK none true = true) : r.adopt.linksOK none true = true := by
+  rw [linksOK_eq] at *
+  simp only [Bool.and_eq_true, beq_iff_eq] at h ⊢
+  exact ⟨⟨rfl, h.1.2⟩, h.2⟩
+
+theorem detach_linksOK {r : Rule} {s : Bool} (h : r.linksOK none s = true) : r.detach.linksOK none false = true := by
+  rw [linksOK_eq] at *
+  simp only [Bool.and_eq_true, beq_iff_eq] at h ⊢
+  exact ⟨⟨rfl, h.1.2⟩, h.2⟩
+
+mutual
+theorem inst_kidsOK (p : Option Nat) (n : Nat) :
+    (s : Spec) → s.kidsOK = true → (Spec.inst p n s).1.kidsOK = true
+  | ⟨k, pre, uri, enc, used, kids⟩, h => by
+    simp only [Spec.inst, Rule.kidsOK]
+    exact instList_kidsOKL k (some n) (n + 1) kids (by simpa [Spec.kidsOK] using h)
+theorem instList_kidsOKL (ck : Kind) (p : Option Nat) (n : Nat) :
+    (l : List Spec) → Spec.kidsOKL ck l = true → Rule.kidsOKL ck (Spec.instList p n l).1 = true
+  | [], _ => by simp [Spec.instList, Rule.kidsOKL]
+  | s :: ss, h => by
+    simp only [Spec.kidsOKL, Bool.and_eq_true] at h
+    simp only [Spec.instList, Rule.kidsOKL, Bool.and_eq_true]
+    exact ⟨⟨by rw [inst_kind]; exact h.1.1, inst_kidsOK p n s h.1.2⟩, instList_kidsOKL ck p _ ss h.2⟩
+end
+
+mutual
+/-- a fresh object names `p` as parent rule, no sheet, and its children name it -/
+theorem inst_linksOK (p : Option Nat) (n : Nat) : (s : Spec) → (Spec.inst p n s).1.linksOK p false = true
+  | ⟨k, pre, uri, enc, used, kids⟩ => by
+    simp only [Spec.inst, Rule.linksOK, beq_self_eq_true, Bool.true_and]
+    exact instList_linksOKL (some n) (n + 1) kids
+theorem instList_linksOKL (p : Option Nat) (n : Nat) : (l : List Spec) → Rule.linksOKL p (Spec.instList p n l).1 = true
+  | [] => by simp [Spec.instList, Rule.linksOKL]
+  | s :: ss => by
+    simp only [Spec.instList, Rule.linksOKL, Bool.and_eq_true]
+    exact ⟨inst_linksOK p n s, instList_linksOKL p _ ss⟩
+end
+
+/-! ### parsed children -/
+
+theorem f_media_text : ∀ k : Kind, k ≠ .vars → k ∉ Gen.mediaTextRejects → k ≠ .margin → allowedIn .media k = true := by
+  intro k; cases k <;> decide
+
+theorem parsePageKids_ok (raising : Bool) (cid : Nat) :
+    (n : Nat) → (l : List Spec) → (ks : List Rule × Nat) → parsePageKids raising cid n l = .ok ks →
+      Rule.kidsOKL .page ks.1 = true ∧ Rule.linksOKL (some cid) ks.1 = true
+  | n, [], ks, h => by
+    simp only [parsePageKids] at h; injection h with h; subst h
+    simp [Rule.kidsOKL, Rule.linksOKL]
+  | n, s :: ss, ks, h => by
+    simp only [parsePageKids] at h
+    split at h
+    · split at h
+      · cases h
+      · rename_i rest hrest
+        injection h with h; subst h
+        have ih := parsePageKids_ok raising cid (n + 1) ss rest hrest
+        rw [kidsOKL_eq, linksOKL_eq] at ih ⊢
+        simp only [List.all_cons, Bool.and_eq_true, List.all_eq_true] at ih ⊢
+        refine ⟨⟨⟨by decide, by simp [Rule.kidsOK, Rule.kidsOKL]⟩, ?_⟩, ⟨by simp [Rule.linksOK, Rule.linksOKL], ?_⟩⟩
+        · intro x hx; exact ih.1 x (List.mem_filter.mp hx).1
+        · intro x hx; exact ih.2 x (List.mem_filter.mp hx).1
+    · split at h
+      · exact parsePageKids_ok raising cid n ss ks h
+      · split at h
+        · cases h
+        · exact parsePageKids_ok raising cid n ss ks h
+
+mutual
+theorem parseMediaKid_ok (raising : Bool) (d : Dict) (cid n : Nat) :
+    (s : Spec) → (rn : Rule × Nat) → parseMediaKid raising d cid n s = .ok (some rn) →
+      allowedIn .media rn.1.kind = true ∧ rn.1.kidsOK = true ∧ rn.1.linksOK (some cid) false = true
+  | ⟨k, pre, uri, enc, used, kids⟩, rn, h => by
+    simp only [parseMediaKid] at h
+    split at h
+    · split at h <;> cases h
+    · rename_i hv
+      split at h
+      · split at h <;> cases h
+      · rename_i hrej
+        split at h
+        · rename_i hk
+          split at h
+          · injection h with h; injection h with h; subst h; subst hk
+            simp [allowedIn, Rule.kidsOK, Rule.kidsOKL, Rule.linksOK, Rule.linksOKL]
+          · split at h <;> cases h
+        · split at h
+          · rename_i hk
+            split at h
+            · cases h
+            · rename_i ks hks
+              injection h with h; injection h with h; subst h; subst hk
+              have ih := parseMediaKids_ok raising d n (n + 1) kids ks hks
+              simp only [allowedIn, Rule.kidsOK, Rule.linksOK, beq_self_eq_true, Bool.true_and]
+              exact ⟨by simp, ih.1, ih.2⟩
+          · split at h
+            · rename_i hk
+              split at h
+              · cases h
+              · rename_i ks hks
+                injection h with h; injection h with h; subst h; subst hk
+                have ih := parsePageKids_ok raising n (n + 1) kids ks hks
+                simp only [allowedIn, Rule.kidsOK, Rule.linksOK, beq_self_eq_true, Bool.true_and]
+                exact ⟨by simp, ih.1, ih.2⟩
+            · split at h
+              · injection h with h; injection h with h; subst h
+                simp [allowedIn, Rule.kidsOK, Rule.kidsOKL, Rule.linksOK, Rule.linksOKL]
+              · rename_i hs hm hp hmar
+                injection h with h; injection h with h; subst h
+                refine ⟨f_media_text k hv (by simpa using hrej) hmar, ?_, ?_⟩
+                · simp [Rule.kidsOK, Rule.kidsOKL]
+                · simp [Rule.linksOK, Rule.linksOKL]
+theorem parseMediaKids_ok (raising : Bool) (d : Dict) (cid n : Nat) :
+    (l : List Spec) → (ks : List Rule × Nat) → parseMediaKids raising d cid n l = .ok ks →
+      Rule.kidsOKL .media ks.1 = true ∧ Rule.linksOKL (some cid) ks.1 = true
+  | [], ks, h => by
+    simp only [parseMediaKids] at h; injection h with h; subst h
+    simp [Rule.kidsOKL, Rule.linksOKL]
+  | s :: ss, ks, h => by
+    simp only [parseMediaKids] at h
+    split at h
+    · cases h
+    · exact parseMediaKids_ok raising d cid n ss ks h
+    · rename_i rn hrn
+      split at h
+      · cases h
+      · rename_i rest hrest
+        injection h with h; subst h
+        have h1 := parseMediaKid_ok raising d cid n s rn hrn
+        have h2 := parseMediaKids_ok raising d cid rn.2 ss rest hrest
+        simp only [Rule.kidsOKL, Rule.linksOKL, Bool.and_eq_true]
+        exact ⟨⟨⟨h1.1, h1.2.1⟩, h2.1⟩, h1.2.2, h2.2⟩
+end
+
+/-! ### `insertCore`: nested kinds, live links, links of dropped objects -/
+
+theorem mem_pyInsert {l : List Rule} {i : Nat} {r x : Rule} (h : x ∈ pyInsert l i r) : x = r ∨ x ∈ l := by
+  unfold pyInsert at h
+  rcases List.mem_append.mp h with h | h
+  · exact Or.inr (List.mem_of_mem_take h)
+  · rcases List.mem_cons.mp h with h | h
+    · exact Or.inl h
+    · exact Or.inr (List.mem_of_mem_drop h)
+
+theorem mem_setEnc0 {e : Cps} {l : List Rule} {x : Rule} (h : x ∈ setEnc0 e l) :
+    x ∈ l ∨ ∃ y ∈ l, x = { y with enc := e } := by
+  cases l with
+  | nil => simp [setEnc0] at h
+  | cons a t =>
+    simp only [setEnc0, List.mem_cons] at h
+    rcases h with h | h
+    · exact Or.inr ⟨a, by simp, h⟩
+    · exact Or.inl (by simp [h])
+
+theorem mem_adoptId {i : Nat} {l : List Rule} {x : Rule} (h : x ∈ adoptId i l) :
+    ∃ y ∈ l, (x = y ∧ y.id ≠ i) ∨ (x = y.adopt ∧ y.id = i) := by
+  unfold adoptId at h
+  obtain ⟨y, hy, rfl⟩ := List.mem_map.mp h
+  refine ⟨y, hy, ?_⟩
+  split
+  · rename_i hi; exact Or.inr ⟨rfl, hi⟩
+  · rename_i hi; exact Or.inl ⟨rfl, hi⟩
+
+/-- the only exception the clean-up can raise is the refusal of `deleteRule` -/
+theorem cleanLoop_err (items : Dict) (done todo removed : List Rule) (e : Err)
+    (h : (cleanLoop items done todo removed).2.2 = some e) : e = .noMod := by
+  induction todo generalizing done removed with
+  | nil => simp [cleanLoop] at h
+  | cons r rest ih =>
+    unfold cleanLoop at h
+    split at h
+    · split at h
+      · simpa using h.symm
+      · exact ih _ _ h
+    · exact ih _ _ h
+
+theorem enc_kidsOK (y : Rule) (e : Cps) : ({ y with enc := e } : Rule).kidsOK = y.kidsOK := by
+  rw [kidsOK_eq, kidsOK_eq]
+theorem enc_linksOK (y : Rule) (e : Cps) (p : Option Nat) (s : Bool) :
+    ({ y with enc := e } : Rule).linksOK p s = y.linksOK p s := by
+  rw [linksOK_eq, linksOK_eq]
+
+/-- the objects `_cleanNamespaces` drops are rules of the list, detached -/
+theorem cleanLoop_removed (items : Dict) (done todo removed : List Rule) :
+    ∀ g ∈ (cleanLoop items done todo removed).2.1, g ∈ removed ∨ ∃ y ∈ todo, g = y.detach := by
+  induction todo generalizing done removed with
+  | nil => intro g hg; exact Or.inl (by simpa [cleanLoop] using hg)
+  | cons r rest ih =>
+    unfold cleanLoop
+    split
+    · split
+      · intro g hg; exact Or.inl hg
+      · intro g hg
+        rcases ih done (removed ++ [r.detach]) g hg with h | ⟨y, hy, h⟩
+        · rcases List.mem_append.mp h with h | h
+          · exact Or.inl h
+          · exact Or.inr ⟨r, by simp, by simpa using h⟩
+        · exact Or.inr ⟨y, by simp [hy], h⟩
+    · intro g hg
+      rcases ih (done ++ [r]) removed g hg with h | ⟨y, hy, h⟩
+      · exact Or.inl h
+      · exact Or.inr ⟨y, by simp [hy], h⟩
+
+theorem cleanNamespaces_removed (l : List Rule) : ∀ g ∈ (cleanNamespaces l).2.1, ∃ y ∈ l, g = y.detach := by
+  intro g hg
+  rcases cleanLoop_removed (nsDict l) [] l [] g hg with h | h
+  · cases h
+  · exact h
+
+theorem insertCore_kidsOK (st : St) (dict : Dict) (r : Rule) (idx : Nat) (inOrder clean track : Bool)
+    (hk : ∀ x ∈ st.rules, x.kidsOK = true) (hr : r.kidsOK = true) :
+    ∀ x ∈ (insertCore st dict r idx inOrder clean track).1.rules, x.kidsOK = true := by
+  have hins : ∀ i (r' : Rule), r'.kidsOK = true → ∀ l : List Rule, l.Sublist (pyInsert st.rules i r') →
+      ∀ x ∈ l, x.kidsOK = true := by
+    intro i r' hr' l hl x hx
+    rcases mem_pyInsert (hl.subset hx) with h | h
+    · rw [h]; exact hr'
+    · exact hk x h
+  unfold insertCore
+  split
+  · exact hk
+  · intro x hx
+    rcases mem_setEnc0 (show x ∈ setEnc0 r.enc st.rules from hx) with h | ⟨y, hy, h⟩
+    · exact hk x h
+    · rw [h, enc_kidsOK]; exact hk y hy
+  · rename_i i _
+    split
+    · split
+      · exact hk
+      · split
+        · have hsub := cleanNamespaces_sublist (pyInsert st.rules i r)
+          dsimp only
+          split
+          · exact hins i r hr _ hsub
+          · split
+            · intro x hx
+              obtain ⟨y, hy, ⟨h, _⟩ | ⟨h, _⟩⟩ := mem_adoptId (show x ∈ adoptId r.id _ from hx)
+              · rw [h]; exact hins i r hr _ hsub y hy
+              · rw [h, adopt_kidsOK]; exact hins i r hr _ hsub y hy
+            · exact hins i r hr _ hsub
+        · exact hins i r.adopt (by simpa using hr) _ (List.Sublist.refl _)
+    · exact hins i r.adopt (by simpa using hr) _ (List.Sublist.refl _)
+
+/-- the `place` answers for which the candidate, though not kept, is given the sheet as parent
+(known finding C09-add-charset-adopts) -/
+def mergesCharset (st : St) (k : Kind) (idx : Nat) (inOrder : Bool) : Bool :=
+  place (kindsOf st.rules) k idx inOrder == .mergeCharset
+
+theorem insertCore_goneOK (st : St) (dict : Dict) (r : Rule) (idx : Nat) (inOrder clean track : Bool)
+    (hl : ∀ x ∈ st.rules, x.linksOK none true = true) (hg : ∀ g ∈ st.gone, g.linksOK none false = true)
+    (hr : r.linksOK none false = true)
+    (hreg : ¬ (track = true ∧ mergesCharset st r.kind idx inOrder = true)) :
+    ∀ g ∈ (insertCore st dict r idx inOrder clean track).1.gone, g.linksOK none false = true := by
+  have hheld : ∀ g ∈ st.gone ++ (if track = true then [r] else []), g.linksOK none false = true := by
+    intro g hg'
+    rcases List.mem_append.mp hg' with h | h
+    · exact hg g h
+    · split at h
+      · have : g = r := by simpa using h
+        rw [this]; exact hr
+      · cases h
+  have hrem : ∀ i, ∀ g ∈ st.gone ++ List.filter (fun g => track || decide (g.id ≠ r.id))
+      (cleanNamespaces (pyInsert st.rules i r)).2.1, g.linksOK none false = true := by
+    intro i g hg'
+    rcases List.mem_append.mp hg' with h | h
+    · exact hg g h
+    · obtain ⟨y, hy, rfl⟩ := cleanNamespaces_removed _ g (List.mem_filter.mp h).1
+      rcases mem_pyInsert hy with h | h
+      · rw [h]; exact detach_linksOK hr
+      · exact detach_linksOK (hl y h)
+  unfold insertCore
+  split
+  · exact hheld
+  · rename_i hp
+    cases track with
+    | false => simpa using hg
+    | true => exact absurd ⟨rfl, by simp [mergesCharset, hp]⟩ hreg
+  · rename_i i _
+    split
+    · split
+      · exact hheld
+      · split
+        · dsimp only
+          split
+          · exact hrem i
+          · split
+            · exact hrem i
+            · exact hrem i
+        · exact hg
+    · exact hg
+
+/-- live links after `insertCore`, unless the clean-up's `deleteRule` raised (known finding C09-clean-refused-halfway) -/
+theorem insertCore_linksOK (st : St) (dict : Dict) (r : Rule) (idx : Nat) (inOrder clean track : Bool)
+    (hl : ∀ x ∈ st.rules, x.linksOK none true = true) (hr : r.linksOK none false = true)
+    (hreg : (insertCore st dict r idx inOrder clean track).2 ≠ .err .noMod) :
+    ∀ x ∈ (insertCore st dict r idx inOrder clean track).1.rules, x.linksOK none true = true := by
+  have hins : ∀ i, ∀ x ∈ pyInsert st.rules i r.adopt, x.linksOK none true = true := by
+    intro i x hx
+    rcases mem_pyInsert hx with h | h
+    · rw [h]; exact adopt_linksOK hr
+    · exact hl x h
+  unfold insertCore at hreg ⊢
+  split
+  · exact hl
+  · intro x hx
+    rcases mem_setEnc0 (show x ∈ setEnc0 r.enc st.rules from hx) with h | ⟨y, hy, h⟩
+    · exact hl x h
+    · rw [h, enc_linksOK]; exact hl y hy
+  · rename_i i hp
+    simp only [hp] at hreg
+    split
+    · rename_i hns
+      simp only [hns, if_true] at hreg
+      split
+      · exact hl
+      · rename_i hdup
+        simp only [hdup] at hreg
+        split
+        · rename_i hcl
+          simp only [hcl, if_true] at hreg
+          have hsub := cleanNamespaces_sublist (pyInsert st.rules i r)
+          dsimp only at hreg ⊢
+          split
+          · rename_i e he
+            simp only [he] at hreg
+            -- the only exception `cleanLoop` produces is NoModificationAllowedErr
+            exfalso
+            have := cleanLoop_err _ _ _ _ e (by simpa [cleanNamespaces] using he)
+            subst this
+            exact hreg rfl
+          · split
+            · intro x hx
+              obtain ⟨y, hy, ⟨h, hid⟩ | ⟨h, hid⟩⟩ := mem_adoptId (show x ∈ adoptId r.id _ from hx)
+              · rw [h]
+                rcases mem_pyInsert (hsub.subset hy) with h' | h'
+                · rw [h'] at hid; exact absurd rfl hid
+                · exact hl y h'
+              · rw [h]
+                rcases mem_pyInsert (hsub.subset hy) with h' | h'
+                · rw [h']; exact adopt_linksOK hr
+                · exact adopt_linksOK' (hl y h')
+            · rename_i hany
+              intro x hx
+              rcases mem_pyInsert (hsub.subset (show x ∈ (cleanNamespaces (pyInsert st.rules i r)).1 from hx)) with h' | h'
+              · exfalso
+                apply hany
+                rw [List.any_eq_true]
+                exact ⟨x, hx, by simp [h']⟩
+              · exact hl x h'
+        · exact hins i
+    · exact hins i
+
+/-! ### the invariant besides the order -/
+
+structure Inv (st : St) : Prop where
+  kids : ∀ r ∈ st.rules, r.kidsOK = true
+  links : ∀ r ∈ st.rules, r.linksOK none true = true
+  gone : ∀ g ∈ st.gone, g.linksOK none false = true
+
+theorem mergesCharset_iff (st : St) (k : Kind) (idx : Nat) (inOrder : Bool) :
+    mergesCharset st k idx inOrder = true ↔
+      (k = .charset ∧ inOrder = true ∧ firstIs [.charset] (kindsOf st.rules) = true) := by
+  unfold mergesCharset place
+  constructor
+  · intro h
+    split at h
+    · rename_i hk
+      split at h
+      · rename_i hio
+        split at h
+        · rename_i hf; exact ⟨hk, hio, hf⟩
+        · simp at h
+      · split at h <;> simp at h
+    · exfalso
+      try dsimp only at h
+      repeat' split at h
+      all_goals simp at h
+  · rintro ⟨hk, hio, hf⟩
+    simp [hk, hio, hf]
+
+theorem insertCore_inv (st : St) (dict : Dict) (r : Rule) (idx : Nat) (inOrder clean track : Bool)
+    (h : Inv st) (hrk : r.kidsOK = true) (hrl : r.linksOK none false = true)
+    (hmerge : ¬ (track = true ∧ r.kind = .charset ∧ inOrder = true ∧ firstIs [.charset] (kindsOf st.rules) = true))
+    (hnomod : (insertCore st dict r idx inOrder clean track).2 ≠ .err .noMod) :
+    Inv (insertCore st dict r idx inOrder clean track).1 :=
+  ⟨insertCore_kidsOK st dict r idx inOrder clean track h.kids hrk,
+   insertCore_linksOK st dict r idx inOrder clean track h.links hrl hnomod,
+   insertCore_goneOK st dict r idx inOrder clean track h.links h.gone hrl (by
+     intro ⟨ht, hm⟩; exact hmerge ⟨ht, (mergesCharset_iff st r.kind idx inOrder).mp hm⟩)⟩
+
+/-- the rule object a dispatcher callback builds is well nested and fresh (names nothing; children name it) -/
+theorem actOf_ins_ok {raising : Bool} {p : PSt} {s : Spec} {r : Rule} {nx : Nat} {nd : Dict} {cl : Bool}
+    (h : actOf raising p s = .ins r nx nd cl) : r.kidsOK = true ∧ r.linksOK none false = true := by
+  unfold actOf at h
+  split at h
+  · cases h
+  · split at h
+    · split at h
+      · cases h
+      · split at h
+        · injection h with h; subst h; simp [Rule.kidsOK, Rule.kidsOKL, Rule.linksOK, Rule.linksOKL]
+        · cases h
+    · split at h
+      · split at h
+        · injection h with h; subst h; simp [Rule.kidsOK, Rule.kidsOKL, Rule.linksOK, Rule.linksOKL]
+        · cases h
+      · split at h
+        · split at h
+          · cases h
+          · rename_i ks hks
+            injection h with h; subst h
+            have := parseMediaKids_ok _ _ _ _ _ ks hks
+            simp only [Rule.kidsOK, Rule.linksOK, beq_self_eq_true, Bool.true_and]
+            exact this
+        · split at h
+          · split at h
+            · cases h
+            · rename_i ks hks
+              injection h with h; subst h
+              have := parsePageKids_ok _ _ _ _ ks hks
+              simp only [Rule.kidsOK, Rule.linksOK, beq_self_eq_true, Bool.true_and]
+              exact this
+          · rename_i h1 h2 h3 h4
+            injection h with h; subst h
+            refine ⟨?_, by simp [Rule.linksOK, Rule.linksOKL]⟩
+            simp [Rule.kidsOK, Rule.kidsOKL]
+
+/-- the three shapes of the rule list after one statement, with what is known about an inserted rule -/
+theorem parseOne_acc' {raising : Bool} {p q : PSt} {s : Spec} (h : parseOne raising p s = .ok q) :
+    q.acc = p.acc ∨ q.acc = replaceUri s.pre s.uri p.acc ∨
+    ∃ r cl, r.kind = s.kind ∧ r.kidsOK = true ∧ r.linksOK none false = true ∧
+      q.acc = (pInsert raising p r cl).1 ∧ ∀ e, (pInsert raising p r cl).2 ≠ .err e := by
+  unfold parseOne at h
+  split at h
+  · cases h
+  · split at h
+    · cases h
+    · injection h with h; subst h
+      left; split <;> rfl
+  · injection h with h; subst h; right; left; rfl
+  · rename_i r nx nd cl hact
+    split at h
+    · cases h
+    · rename_i acc o hne hres
+      injection h with h; subst h
+      right; right
+      refine ⟨r, cl, actOf_ins_kind hact, (actOf_ins_ok hact).1, (actOf_ins_ok hact).2, by simp [hres], ?_⟩
+      intro e he
+      rw [hres] at he
+      exact hne e he
+
+theorem replaceUri_mem {p u : Cps} {l : List Rule} {x : Rule} (h : x ∈ replaceUri p u l) :
+    ∃ y ∈ l, x = y ∨ x = { y with uri := u } := by
+  unfold replaceUri at h
+  obtain ⟨y, hy, rfl⟩ := List.mem_map.mp h
+  refine ⟨y, hy, ?_⟩
+  split
+  · exact Or.inr rfl
+  · exact Or.inl rfl
+
+theorem uri_kidsOK (y : Rule) (u : Cps) : ({ y with uri := u } : Rule).kidsOK = y.kidsOK := by
+  rw [kidsOK_eq, kidsOK_eq]
+theorem uri_linksOK (y : Rule) (u : Cps) (p : Option Nat) (s : Bool) :
+    ({ y with uri := u } : Rule).linksOK p s = y.linksOK p s := by
+  rw [linksOK_eq, linksOK_eq]
+
+/-- every rule of the list being built is well nested and names the sheet -/
+def AccOK (acc : List Rule) : Prop := ∀ x ∈ acc, x.kidsOK = true ∧ x.linksOK none true = true
+
+theorem parseOne_accOK {raising : Bool} {p q : PSt} {s : Spec} (h : parseOne raising p s = .ok q)
+    (hp : AccOK p.acc) : AccOK q.acc := by
+  rcases parseOne_acc' h with h | h | ⟨r, cl, _, hk, hl, h, hne⟩
+  · rw [h]; exact hp
+  · rw [h]
+    intro x hx
+    obtain ⟨y, hy, hxy | hxy⟩ := replaceUri_mem hx
+    · rw [hxy]; exact hp y hy
+    · rw [hxy, uri_kidsOK, uri_linksOK]; exact hp y hy
+  · rw [h]
+    intro x hx
+    unfold pInsert at hx hne
+    exact ⟨insertCore_kidsOK _ _ _ _ _ _ _ (fun y hy => (hp y hy).1) hk x hx,
+      insertCore_linksOK _ _ _ _ _ _ _ (fun y hy => (hp y hy).2) hl (hne _) x hx⟩
+
+theorem parseTop_accOK {raising : Bool} {specs : List Spec} {p q : PSt} (h : parseTop raising p specs = .ok q)
+    (hp : AccOK p.acc) : AccOK q.acc := by
+  induction specs generalizing p with
+  | nil => simp only [parseTop] at h; injection h with h; subst h; exact hp
+  | cons s ss ih =>
+    simp only [parseTop] at h
+    split at h
+    · cases h
+    · rename_i p' hp'
+      exact ih h (show AccOK p'.acc from parseOne_accOK hp' hp)
+
+theorem parseCand_ok {raising : Bool} {d : Dict} {n : Nat} {s : Spec} {c : Rule × Nat}
+    (h : parseCand raising d n s = .ok (some c)) : c.1.kidsOK = true ∧ c.1.linksOK none false = true := by
+  unfold parseCand at h
+  split at h
+  · cases h
+  · rename_i q hq
+    split at h
+    · rename_i r hacc
+      injection h with h; injection h with h; subst h
+      have := parseOne_accOK hq (by intro x hx; cases hx) r (by simp [hacc])
+      exact ⟨by simpa using this.1, detach_linksOK this.2⟩
+    · cases h
+
+/-! ### operations on the sheet's own list keep `Inv` outside the regions -/
+
+theorem inv_gone_append {st : St} (h : Inv st) (held : List Rule) (hh : ∀ g ∈ held, g.linksOK none false = true) :
+    Inv { st with gone := st.gone ++ held } :=
+  ⟨h.kids, h.links, by
+    intro g hg
+    rcases List.mem_append.mp hg with hg | hg
+    · exact h.gone g hg
+    · exact hh g hg⟩
+
+theorem place_reject {l : List Kind} {k : Kind} {idx : Nat} {io : Bool} {e : Err}
+    (h : place l k idx io = .reject e) : e = .hierarchy := by
+  unfold place at h
+  try dsimp only at h
+  repeat' split at h
+  all_goals first | (injection h with h; exact h.symm) | cases h
+
+theorem logError_ne {raising : Bool} {e e' : Err} (h : e ≠ e') : logError raising e ≠ .err e' := by
+  unfold logError; split <;> simp [h]
+
+/-- only an insert of a @namespace rule can raise NoModificationAllowedErr -/
+theorem insertCore_noMod (st : St) (dict : Dict) (r : Rule) (idx : Nat) (inOrder clean track : Bool)
+    (hk : r.kind ≠ .ns) : (insertCore st dict r idx inOrder clean track).2 ≠ .err .noMod := by
+  unfold insertCore
+  split
+  · rename_i e he
+    rw [place_reject he]
+    exact logError_ne (by decide)
+  · simp
+  · split
+    · rename_i h; exact absurd h hk
+    · simp
+
+theorem insertRule_inv (st : St) (s : Spec) (index : Option Int) (inOrder viaStr track : Bool) (h : Inv st)
+    (hs : viaStr = true ∨ s.kidsOK = true)
+    (hmerge : ¬ (track = true ∧ viaStr = false ∧ s.kind = .charset ∧ inOrder = true ∧
+      firstIs [.charset] (kindsOf st.rules) = true ∧ (idxOf index st.rules.length).isSome = true))
+    (hnomod : (insertRule st s index inOrder viaStr track).2 ≠ .err .noMod) :
+    Inv (insertRule st s index inOrder viaStr track).1 := by
+  unfold insertRule at hnomod ⊢
+  dsimp only at hnomod ⊢
+  split
+  · rename_i hv
+    simp only [hv, if_true] at hnomod
+    split
+    · exact h
+    · rename_i idx hi
+      simp only [hi] at hnomod
+      split
+      · exact h
+      · exact h
+      · rename_i c hc
+        simp only [hc] at hnomod
+        have hc' := parseCand_ok hc
+        refine insertCore_inv { rules := st.rules, gone := st.gone, next := _, raising := st.raising }
+          _ _ _ _ _ _ ⟨h.kids, h.links, h.gone⟩ hc'.1 hc'.2 (by simp) hnomod
+  · rename_i hv
+    have hv' : viaStr = false := by simpa using hv
+    simp only [hv] at hnomod
+    have hfresh : ∀ g ∈ (if track = true then [(Spec.inst none st.next s).1] else []),
+        g.linksOK none false = true := by
+      intro g hg
+      split at hg
+      · have : g = (Spec.inst none st.next s).1 := by simpa using hg
+        rw [this]; exact inst_linksOK none st.next s
+      · cases hg
+    have hheld : ∀ g ∈ st.gone ++ (if track = true then [(Spec.inst none st.next s).1] else []),
+        g.linksOK none false = true := by
+      intro g hg
+      rcases List.mem_append.mp hg with hg | hg
+      · exact h.gone g hg
+      · exact hfresh g hg
+    split
+    · exact ⟨h.kids, h.links, hheld⟩
+    · rename_i idx hi
+      simp only [hi] at hnomod
+      split
+      · exact ⟨h.kids, h.links, hheld⟩
+      · rename_i hwf
+        simp only [hwf] at hnomod
+        have hsk : s.kidsOK = true := by
+          rcases hs with hs | hs
+          · rw [hv'] at hs; cases hs
+          · exact hs
+        refine insertCore_inv { rules := st.rules, gone := st.gone, next := _, raising := st.raising }
+          _ _ _ _ _ _ ⟨h.kids, h.links, h.gone⟩ (inst_kidsOK none st.next s hsk) (inst_linksOK none st.next s) ?_ hnomod
+        rw [inst_kind]
+        intro ⟨ht, hk, hio, hf⟩
+        exact hmerge ⟨ht, hv', hk, hio, hf, by simp [hi]⟩
+
+theorem deleteRule_inv (st : St) (i : Int) (h : Inv st) : Inv (deleteRule st i).1 := by
+  unfold deleteRule
+  split
+  · exact h
+  · rename_i n _
+    split
+    · exact h
+    · rename_i r hr
+      split
+      · exact h
+      · have hsub : (st.rules.eraseIdx n).Sublist st.rules := List.eraseIdx_sublist _ _
+        refine ⟨fun x hx => h.kids x (hsub.subset hx), fun x hx => h.links x (hsub.subset hx), ?_⟩
+        intro g hg
+        rcases List.mem_append.mp hg with hg | hg
+        · exact h.gone g hg
+        · have : g = r.detach := by simpa using hg
+          rw [this]
+          exact detach_linksOK (h.links r (List.mem_of_getElem? hr))
+
+theorem deleteRule_err_unchanged (st : St) (i : Int) (e : Err) (h : (deleteRule st i).2 = .err e) :
+    (deleteRule st i).1 = st := by
+  unfold deleteRule at *
+  split <;> try rfl
+  split <;> try rfl
+  split <;> simp_all
+
+theorem setEncoding_inv (st : St) (e : Cps) (valid : Bool) (h : Inv st) : Inv (setEncoding st e valid).1 := by
+  have hfresh : Inv ((if e.isEmpty = true then (st, Outcome.none)
+      else if (!valid) = true then (st, logError st.raising .syntaxErr)
+      else ((insertRule st ⟨.charset, [], [], e, [], []⟩ (some 0) false false false).1,
+        match (insertRule st ⟨.charset, [], [], e, [], []⟩ (some 0) false false false).2 with
+        | .ok _ => Outcome.none
+        | o => o)) : St × Outcome).1 := by
+    split
+    · exact h
+    · split
+      · exact h
+      · apply insertRule_inv st _ _ false false false h (Or.inr (by simp [Spec.kidsOK, Spec.kidsOKL])) (by simp)
+        -- a @charset insert never runs the namespace clean-up
+        unfold insertRule
+        dsimp only
+        simp only [Bool.false_eq_true, if_false]
+        split
+        · simp
+        · split
+          · exact logError_ne (by decide)
+          · exact insertCore_noMod _ _ _ _ _ _ _ (by rw [inst_kind]; simp)
+  unfold setEncoding
+  dsimp only
+  split
+  · exact hfresh
+  · rename_i r rest hr
+    split
+    · split
+      · split
+        · refine ⟨?_, ?_, h.gone⟩
+          · intro x hx
+            rcases List.mem_cons.mp hx with hx | hx
+            · rw [hx, enc_kidsOK]; exact h.kids r (by simp [hr])
+            · exact h.kids x (by simp [hr, hx])
+          · intro x hx
+            rcases List.mem_cons.mp hx with hx | hx
+            · rw [hx, enc_linksOK]; exact h.links r (by simp [hr])
+            · exact h.links x (by simp [hr, hx])
+        · exact h
+      · exact deleteRule_inv st 0 h
+    · exact hfresh
+
+theorem nsDel_inv (st : St) (p : Cps) (h : Inv st) : Inv (nsDel st p).1 := by
+  unfold nsDel
+  split
+  · exact deleteRule_inv st _ h
+  · exact h
+
+theorem nsSet_inv (st : St) (p u : Cps) (h : Inv st)
+    (hreg : ¬ (findNsIdx p st.rules = none ∧ (nsSet st p u).2 = .err .noMod)) : Inv (nsSet st p u).1 := by
+  unfold nsSet at hreg ⊢
+  split
+  · rename_i hf
+    simp only [hf, true_and] at hreg
+    apply insertRule_inv st _ none true false false h (Or.inr (by simp [Spec.kidsOK, Spec.kidsOKL])) (by simp)
+    intro hn
+    apply hreg
+    simp [hn]
+  · split
+    · exact h
+    · split <;> exact h
+
+/-- `sheet.cssText = …`: refused, or accepted on an empty sheet (the replaced objects are the finding) -/
+theorem setText_inv (st : St) (specs : List Spec) (h : Inv st)
+    (hreg : ¬ (st.rules ≠ [] ∧
+      (parseTop st.raising { acc := [], nd := [], level := 0, next := st.next } specs).isOk = true)) :
+    Inv (setText st specs).1 := by
+  unfold setText
+  split
+  · exact h
+  · rename_i p hp
+    have hacc := parseTop_accOK hp (by intro x hx; cases hx)
+    have hsub := cleanNamespaces_sublist p.acc
+    have hnil : st.rules = [] := by
+      cases hr : st.rules with
+      | nil => rfl
+      | cons a t => exact absurd ⟨by simp [hr], by simp [hp, Except.isOk, Except.toBool]⟩ hreg
+    refine ⟨fun x hx => (hacc x (hsub.subset hx)).1, fun x hx => (hacc x (hsub.subset hx)).2, ?_⟩
+    intro g hg
+    simp only [hnil, List.append_nil] at hg
+    exact h.gone g hg
+
 /-! ## rule descriptions used by the witnesses in `Props/C09.lean` -/
 namespace Wit
 def commentS : Spec := ⟨.comment, [], [], [], [], []⟩
